@@ -587,3 +587,119 @@ def frac_to_float(q: Fraction) -> float:
         return float(q)
     except OverflowError:
         return math.inf if q > 0 else -math.inf
+
+
+# ----------------------------------------------------------------------------
+# concrete evaluation of a term (used to validate the encoders against the real artefacts)
+# ----------------------------------------------------------------------------
+class EvalError(Exception):
+    pass
+
+
+def eval_term(ctx: Ctx, term, inputs: dict, prec=40):
+    """Evaluate a z3 term built by this layer at concrete inputs (name -> number), interpreting
+    Ackermann constants by the real elementary functions (mpmath).  Raises EvalError outside the domain."""
+    import mpmath as mp
+
+    mp.mp.dps = prec
+    cache = {}
+
+    def ev(e):
+        i = e.get_id()
+        if i in cache:
+            return cache[i]
+        r = ev1(e)
+        cache[i] = r
+        return r
+
+    def ev1(e):
+        if z3.is_rational_value(e):
+            return mp.mpf(e.numerator_as_long()) / mp.mpf(e.denominator_as_long())
+        if z3.is_int_value(e):
+            return mp.mpf(e.as_long())
+        if z3.is_true(e):
+            return True
+        if z3.is_false(e):
+            return False
+        if e.get_id() in ctx.var_info:
+            fname, args = ctx.var_info[e.get_id()]
+            xs = [ev(a) for a in args]
+            try:
+                if fname.startswith("root"):
+                    if xs[0] < 0:
+                        raise EvalError("root of negative")
+                    return mp.root(xs[0], int(fname[4:]))
+                if fname == "pow":
+                    r = mp.power(xs[0], xs[1])
+                elif fname == "log":
+                    if xs[0] <= 0:
+                        raise EvalError("log of non-positive")
+                    r = mp.log(xs[0])
+                else:
+                    r = getattr(mp, fname)(xs[0])
+            except (ValueError, ZeroDivisionError) as ex:
+                raise EvalError(str(ex))
+            if isinstance(r, mp.mpc):
+                raise EvalError("complex")
+            return r
+        if z3.is_const(e):
+            n = e.decl().name()
+            if n == "PI":
+                return mp.pi
+            if n in inputs:
+                v = inputs[n]
+                return mp.mpf(v.numerator) / mp.mpf(v.denominator) if isinstance(v, Fraction) else mp.mpf(v)
+            raise EvalError(f"no value for {n}")
+        k = e.decl().kind()
+        ch = e.children()
+        if k == z3.Z3_OP_ADD:
+            return sum((ev(c) for c in ch), mp.mpf(0))
+        if k == z3.Z3_OP_SUB:
+            r = ev(ch[0])
+            for c in ch[1:]:
+                r = r - ev(c)
+            return r
+        if k == z3.Z3_OP_UMINUS:
+            return -ev(ch[0])
+        if k == z3.Z3_OP_MUL:
+            r = mp.mpf(1)
+            for c in ch:
+                r = r * ev(c)
+            return r
+        if k in (z3.Z3_OP_DIV, z3.Z3_OP_IDIV):
+            d = ev(ch[1])
+            if d == 0:
+                raise EvalError("division by zero")
+            return ev(ch[0]) / d
+        if k == z3.Z3_OP_ITE:
+            return ev(ch[1]) if ev(ch[0]) else ev(ch[2])
+        if k == z3.Z3_OP_TO_REAL:
+            return ev(ch[0])
+        if k == z3.Z3_OP_TO_INT:
+            return mp.floor(ev(ch[0]))
+        if k == z3.Z3_OP_LT:
+            return ev(ch[0]) < ev(ch[1])
+        if k == z3.Z3_OP_LE:
+            return ev(ch[0]) <= ev(ch[1])
+        if k == z3.Z3_OP_GT:
+            return ev(ch[0]) > ev(ch[1])
+        if k == z3.Z3_OP_GE:
+            return ev(ch[0]) >= ev(ch[1])
+        if k == z3.Z3_OP_EQ:
+            return ev(ch[0]) == ev(ch[1])
+        if k == z3.Z3_OP_DISTINCT:
+            return ev(ch[0]) != ev(ch[1])
+        if k == z3.Z3_OP_AND:
+            return all(ev(c) for c in ch)
+        if k == z3.Z3_OP_OR:
+            return any(ev(c) for c in ch)
+        if k == z3.Z3_OP_NOT:
+            return not ev(ch[0])
+        if k == z3.Z3_OP_POWER:
+            return mp.power(ev(ch[0]), ev(ch[1]))
+        raise EvalError(f"cannot evaluate {e.decl().name()}")
+
+    r = ev(term)
+    if isinstance(r, bool):
+        return mp.mpf(1 if r else 0)
+    return r
